@@ -637,11 +637,12 @@ def step (_ : Unit) (ws : List String) : Unit × String :=
     | some d => (match snappyDecode d with | .ok b => "ok:" ++ canon b | .error _ => "err")
     | none => "bad-op"
   | ["snaprt", body, z] =>
-    -- what golang/snappy's Encode produced for `body`, decoded by the format's decoder, must be `body`
+    -- what golang/snappy's Encode produced for `body`, decoded by the format's decoder, must be `body`;
+    -- `dom=true`: its elements are in the domain of C18_snappy_decodes_any_stream (checked by the harness)
     match parseBytes body, parseBytes z with
     | some b, some z =>
       (match snappyDecode z with
-       | .ok d => if d == b then "ok:" ++ canon b else "format-mismatch:" ++ canon d
+       | .ok d => if d == b then "ok:" ++ canon b ++ " dom=true" else "format-mismatch:" ++ canon d
        | .error _ => "format-reject")
     | _, _ => "bad-op"
   | ["big", comp, ver, hflag, bodyLen, _, enc, dec] =>
